@@ -720,7 +720,7 @@ var alphabets = []string{
 }
 
 // Names returns n distinct, non-empty, slash-free names mixing ascii, hex-looking prefixes,
-// unicode and spaces.
+// unicode, spaces and (one in eight) bytes that are not valid UTF-8.
 func Names(n int, r *rand.Rand) []string {
 	seen := map[string]bool{}
 	var out []string
@@ -732,6 +732,12 @@ func Names(n int, r *rand.Rand) []string {
 			nm = append(nm, a[r.Intn(len(a))])
 		}
 		s := string(nm)
+		if r.Intn(8) == 0 {
+			// names are byte strings: not every on-disk or dag-pb name is valid UTF-8
+			bad := []string{"\xff", "\xe9", "\xc3", "\xfe\xfd", "\x92"}[r.Intn(5)]
+			cut := r.Intn(len(s) + 1)
+			s = s[:cut] + bad + s[cut:]
+		}
 		if r.Intn(3) == 0 {
 			s = fmt.Sprintf("%02X%s", r.Intn(256), s)
 		}
